@@ -178,6 +178,72 @@ theorem dial_expansion_sites_match_source :
     Gen.upstreamDialLiterals.all (fun r => !(r.2.2 == "dialInfo.String()")) = true := by
   set_option maxRecDepth 100000 in decide
 
+/-! ### the FastCGI transport's CGI table (`Fcgi.lean`) -/
+
+/-- every write into `env` of fastcgi.go:buildEnv in source order: (key text, value text, operand of the enclosing `range`) -/
+def fcgiWriteTable : List (String × String × String) := [
+  ("AUTH_TYPE", "\"\"", "-"),
+  ("CONTENT_LENGTH", "r.Header.Get(\"Content-Length\")", "-"),
+  ("CONTENT_TYPE", "r.Header.Get(\"Content-Type\")", "-"),
+  ("GATEWAY_INTERFACE", "\"CGI/1.1\"", "-"),
+  ("PATH_INFO", "pathInfo", "-"),
+  ("QUERY_STRING", "r.URL.RawQuery", "-"),
+  ("REMOTE_ADDR", "ip", "-"),
+  ("REMOTE_HOST", "ip", "-"),
+  ("REMOTE_PORT", "port", "-"),
+  ("REMOTE_IDENT", "\"\"", "-"),
+  ("REMOTE_USER", "authUser", "-"),
+  ("REQUEST_METHOD", "r.Method", "-"),
+  ("REQUEST_SCHEME", "requestScheme", "-"),
+  ("SERVER_NAME", "reqHost", "-"),
+  ("SERVER_PROTOCOL", "r.Proto", "-"),
+  ("SERVER_SOFTWARE", "t.serverSoftware", "-"),
+  ("DOCUMENT_ROOT", "root", "-"),
+  ("DOCUMENT_URI", "docURI", "-"),
+  ("HTTP_HOST", "r.Host", "-"),
+  ("REQUEST_URI", "origReq.URL.RequestURI()", "-"),
+  ("SCRIPT_FILENAME", "scriptFilename", "-"),
+  ("SCRIPT_NAME", "scriptName", "-"),
+  ("\"PATH_TRANSLATED\"", "caddyhttp.SanitizedPathJoin(root,pathInfo)", "-"),
+  ("\"SERVER_PORT\"", "reqPort", "-"),
+  ("\"SERVER_PORT\"", "\"80\"", "-"),
+  ("\"SERVER_PORT\"", "\"443\"", "-"),
+  ("\"HTTPS\"", "\"on\"", "-"),
+  ("\"SSL_PROTOCOL\"", "v", "-"),
+  ("\"SSL_CIPHER\"", "cs.Name", "caddytls.SupportedCipherSuites()"),
+  ("key", "repl.ReplaceAll(value,\"\")", "t.EnvVars"),
+  ("\"HTTP_\"+header", "strings.Join(val,\", \")", "r.Header")
+]
+
+/-- **regenerated tie: how `buildEnv` fills the CGI table.** The writes are exactly the listed ones, in this
+    order — the literal and the conditional rows, then the loop over the configured `t.EnvVars`, then the loop over
+    `r.Header` — and the function calls the replacer exactly twice: on `t.Root`, and on the loop variable of
+    the loop that ranges over `t.EnvVars`. The seeded change seeded/C18-fastcgi-env-expanded-after-request-values keeps
+    two calls with the same argument TEXT (`value`) in the same function, so `replacer_tree_call_sites_match_source`
+    does not see it; the collection the expanding loop ranges over (`env` instead of `t.EnvVars`) and the value
+    text of the configured row do change, and break this theorem without any sampled case. -/
+theorem fastcgi_env_writes_match_source :
+    Gen.fastcgiEnvWrites = fcgiWriteTable ∧
+    Gen.fastcgiEnvReplaceCalls = [("ReplaceAll", "t.Root", "-"), ("ReplaceAll", "value", "t.EnvVars")] := by
+  set_option maxRecDepth 1000000 in decide
+
+/-- **the only row of the table that goes through the replacer is the configured one, and it is written before
+    the header rows and after the literal.** In the table as the source builds it (`fcgiWriteTable`, every value text listed): exactly one write has
+    the value `repl.ReplaceAll(value,"")` and it is the one write inside the loop over `t.EnvVars`; every write inside the loop
+    over `r.Header` comes after it, and the rows the model copies from the request (`Fcgi.fcgiFixedRows`,
+    `fcgiHeaderRows`) have the value texts the model reads them as. -/
+theorem fastcgi_only_configured_rows_are_expanded :
+    (fcgiWriteTable.filter (fun w => w.2.2 == "t.EnvVars" || w.2.1 == "repl.ReplaceAll(value,\"\")")) =
+      [("key", "repl.ReplaceAll(value,\"\")", "t.EnvVars")] ∧
+    (fcgiWriteTable.dropWhile (fun w => w.2.2 != "t.EnvVars")).map (·.2.2) = ["t.EnvVars", "r.Header"] ∧
+    [("CONTENT_TYPE", "r.Header.Get(\"Content-Type\")"), ("PATH_INFO", "pathInfo"), ("QUERY_STRING", "r.URL.RawQuery"),
+     ("REMOTE_USER", "authUser"), ("DOCUMENT_ROOT", "root"), ("DOCUMENT_URI", "docURI"),
+     ("REQUEST_URI", "origReq.URL.RequestURI()"), ("SCRIPT_FILENAME", "scriptFilename"), ("SCRIPT_NAME", "scriptName"),
+     ("\"PATH_TRANSLATED\"", "caddyhttp.SanitizedPathJoin(root,pathInfo)"),
+     ("\"HTTP_\"+header", "strings.Join(val,\", \")")].all
+      (fun p => fcgiWriteTable.any (fun w => w.1 == p.1 && w.2.1 == p.2)) = true := by
+  set_option maxRecDepth 1000000 in decide
+
 /-- configured fields with an expansion at two different stages: (field, first site, second site) -/
 def fieldsExpandedAtTwoStages : List (String × String × String) := [
   ("http host matcher pattern", "modules/caddyhttp/autohttps.go:automaticHTTPSPhase1 (load, into a loop variable)",
